@@ -103,6 +103,21 @@ func (fr *Frame) guardedRead(st *State, fa *ssa.FieldAddr, base Val, pos token.P
 	fr.guardedCheck(st, fa, base, pos, false)
 }
 
+// neverClosed: channels held in fields declared `never_closed` are not closed anywhere in the
+// module (checked by the module scan), so a value loaded from such a field is an open channel.
+func (fr *Frame) neverClosed(st *State, fa *ssa.FieldAddr, v Val) {
+	tc := fr.r.typeContractFor(fa.X.Type())
+	if tc == nil {
+		return
+	}
+	fname := structOf(fa.X.Type()).Field(fa.Field).Name()
+	for _, f := range tc.Flags["never_closed"] {
+		if f == fname && v.K == KRef {
+			fr.r.assume(st, sNot(sSelect(fr.r.get(st, "g|$closed"), v.S)))
+		}
+	}
+}
+
 func (fr *Frame) guardedWrite(st *State, fa *ssa.FieldAddr, base Val, pos token.Pos) {
 	fr.guardedCheck(st, fa, base, pos, true)
 }
@@ -156,7 +171,7 @@ func (fr *Frame) lockOp(st *State, c *ssa.CallCommon, lock Val, acquire bool, po
 		r.require(st, "lock-order", fr.oblFunc(), fr.oblName(fmt.Sprintf("acquire(%s)@%s", name, asite)), sNot(sSelect(held, lock.S)), tags, pos, "lock "+name+" acquired while already held (self-deadlock)")
 		r.set(st, "g|$held", sStore(held, lock.S, "true"))
 		fr.r.locks = append(fr.r.locks, lockRec{lock.S, sk, field})
-		if tc != nil && ok && sk != "$globals" {
+		if tc != nil && ok && sk != "$globals" && len(tc.GuardedBy[field]) > 0 {
 			// other goroutines may have changed the guarded fields: havoc unless the object is fresh
 			pre := st.clone()
 			freshObj := fmt.Sprintf("(> (root %s) %s)", base.S, fr.topEntryHeap())
@@ -250,7 +265,7 @@ func (fr *Frame) lockOp(st *State, c *ssa.CallCommon, lock Val, acquire bool, po
 		site = r.eng.pos(pos)
 	}
 	r.require(st, "lock-balance", fr.oblFunc(), fr.oblName(fmt.Sprintf("release(%s)@%s", name, site)), sSelect(held, lock.S), tags, pos, "unlock of "+name+" which is not held")
-	if tc != nil && ok && sk != "$globals" {
+	if tc != nil && ok && sk != "$globals" && len(tc.GuardedBy[field]) > 0 {
 		fr.checkTypeInvAt(st, tc, base, pos, "inv@unlock", site)
 		if snap := r.lockSnap[lock.S]; snap != nil {
 			cf := fr.typeInvFrame(tc, base)
@@ -443,12 +458,27 @@ func (fr *Frame) blockingCallAt(st *State, ins ssa.Instruction, name string, fc 
 }
 
 // chanRecvAssume attaches the declared channel invariant (if any) to a received value.
+// chanKey names a channel by the struct field it is read from (T.f), else by its Go type.
+func chanKey(v ssa.Value, t types.Type) string {
+	if u, ok := v.(*ssa.UnOp); ok && u.Op == token.MUL {
+		if fa, ok := u.X.(*ssa.FieldAddr); ok {
+			if so := structOf(fa.X.Type()); so != nil {
+				return structKey(fa.X.Type()) + "." + so.Field(fa.Field).Name()
+			}
+		}
+	}
+	if t == nil {
+		return ""
+	}
+	return typeKey(t)
+}
+
 func (fr *Frame) chanRecvAssume(st *State, ch Val, v Val, ok Val) {
 	r := fr.r
 	if ch.T == nil {
 		return
 	}
-	invs := r.eng.cs.ChanInv[typeKey(ch.T)]
+	invs := r.eng.cs.ChanInv[fr.curChanKey]
 	for _, c := range invs {
 		val, err := fr.eval(st, c.Expr, map[string]Val{"ch": ch, "elem": v})
 		if err != nil {
@@ -465,7 +495,7 @@ func (fr *Frame) chanSendCheck(st *State, ins ssa.Instruction, site string, ch V
 	if ch.T == nil {
 		return
 	}
-	for i, c := range r.eng.cs.ChanInv[typeKey(ch.T)] {
+	for i, c := range r.eng.cs.ChanInv[fr.curChanKey] {
 		fr.requireExpr(st, "chaninv-send", fr.oblFunc(), fr.oblName(fmt.Sprintf("%s.%d%s", site, i+1, tagSuffix(c.Tags))), c.Expr, map[string]Val{"ch": ch, "elem": v}, c.Tags, ins.Pos(), "channel invariant at send: "+c.Text)
 	}
 }
